@@ -11,4 +11,5 @@ import Norad.Props.C13
 #print axioms C13.loaded_info_satisfies_rules
 #print axioms C13.saved_info_satisfies_rules
 #print axioms C13.validate_error_means_violation
+#print axioms C13.validate_error_kind
 #print axioms C13.validateDate_spec
